@@ -125,6 +125,28 @@ func (w *wdWorld) doStop(via string) bool {
 
 // awaitEnded records the end of run(): the deployment reported to the service, stop() calls returned.
 func (w *wdWorld) awaitEnded(l line) bool {
+	// run() ends -- or, against the script, a close broadcast shows up first: record it and answer it
+	_ = w.h.waitFor(func() bool {
+		select {
+		case <-w.ended:
+			return true
+		default:
+		}
+		return len(w.calls.started) > w.repBcast
+	})
+	select {
+	case <-w.ended:
+	default:
+		w.h.mu.Lock()
+		unexpected := len(w.calls.started) > w.repBcast
+		w.h.mu.Unlock()
+		if unexpected && l["via"] == "stop" {
+			if !w.awaitTimeout() {
+				return false
+			}
+			return w.bret("ok")
+		}
+	}
 	if !waitChan(w.ended) {
 		w.inconcl = "the watchdog did not end"
 		return false
